@@ -1181,7 +1181,7 @@ def gen_cases(rng, tier):
             if tier == "thorough":
                 pool = [t for _, t in corpus] + [t for _, t in rng.sample(muts, 120)]
             else:
-                pool = list(CORE) + [t for _, t in rng.sample(corpus, 6)] + [t for _, t in rng.sample(muts, 4)]
+                pool = list(CORE) + [t for _, t in rng.sample(corpus, 3)] + [t for _, t in rng.sample(muts, 2)]
             pool += list(dict.fromkeys(LITERAL_TEXTS.values()))
             for t in dict.fromkeys(pool):
                 cases.append({"mode": mode, "turns": TURNS[mode], "subst": {str(k): t}})
@@ -1191,7 +1191,8 @@ def gen_cases(rng, tier):
         for name in CTX_VAR_NAMES:
             ts = ctxvar_intent_texts(mode, name)
             cases.append({"mode": mode, "turns": TURNS[mode], "subst": {pos: ts[0]}})
-            cases.append({"mode": mode, "turns": TURNS[mode], "every": [ts[0]]})
+            if tier == "thorough" or name in ("event", "profile", "items", "count", "i", "generation_options", "undefined_name", "secret"):
+                cases.append({"mode": mode, "turns": TURNS[mode], "every": [ts[0]]})
             if tier == "thorough" or name == "event":
                 for k in range(NPOS[mode]):
                     for t in ts:
